@@ -118,7 +118,9 @@ impl Function for EncodeProto {
         let path_buf = PathBuf::from(os_string);
         let path = Path::new(&path_buf);
         let descriptor =
-            get_message_descriptor(path, &message_type_str).expect("message type not found");
+            get_message_descriptor(path, &message_type_str).map_err(|error| {
+                Box::new(ExpressionError::from(error)) as Box<dyn DiagnosticMessage>
+            })?;
 
         Ok(EncodeProtoFn {
             descriptor,
